@@ -489,7 +489,7 @@ fn one_value(v: Vec<u8>) -> LinkedList<Vec<u8>> {
 //@ bounds=version 0..3 and type set in both orders, code: all 256, message id: all 65536, token: length 0..8 with symbolic bytes; no options, no payload
 //@ what=bytes = [Ver<<6|T<<4|TKL, code, id_hi, id_lo, token...] exactly
 #[kani::proof]
-#[kani::unwind(10)]
+#[kani::unwind(4)]
 #[kani::stub(core::fmt::write, crate::verif_harness::stub_write)]
 fn c01_header_token() {
     let mut p = Packet::new();
@@ -651,7 +651,7 @@ fn c01_two_options() {
 //@ bounds=one symbolic number (every u16), three values of 1, 0 and 2 symbolic bytes added through the public add_option
 //@ what=repeated options are emitted in insertion order, the second and third with delta 0
 #[kani::proof]
-#[kani::unwind(6)]
+#[kani::unwind(5)]
 #[kani::stub(core::fmt::write, crate::verif_harness::stub_write)]
 fn c01_same_number() {
     let mut p = Packet::new();
@@ -685,7 +685,7 @@ fn c01_same_number() {
 //@ bounds=numbers 11 and 12 (concrete), symbolic value bytes; option 11 is cleared and optionally re-added; option 12 follows
 //@ what=a cleared option emits nothing and does not disturb the delta of the next option; re-adding emits exactly the new value
 #[kani::proof]
-#[kani::unwind(6)]
+#[kani::unwind(5)]
 #[kani::stub(core::fmt::write, crate::verif_harness::stub_write)]
 fn c01_clear_readd() {
     let mut p = Packet::new();
@@ -721,7 +721,7 @@ fn c01_clear_readd() {
 //@ bounds=pairs of concrete numbers from each delta class: (11, 12) (11, 23) (11, 300) (3, 258+14=272), public add_option in either order (symbolic), symbolic one-byte values
 //@ what=the encoding does not depend on the order of the add_option calls: ascending numbers, deltas between them
 #[kani::proof]
-#[kani::unwind(6)]
+#[kani::unwind(5)]
 #[kani::stub(core::fmt::write, crate::verif_harness::stub_write)]
 fn c01_api_order() {
     let which: u8 = kani::any();
@@ -894,7 +894,7 @@ fn c04_limit_option() {
 //@ bounds=token length symbolic 0..8, one option of 1 byte, payload of 1 byte, code symbolic, limit: every usize
 //@ what=the limit counts the token and the marker
 #[kani::proof]
-#[kani::unwind(10)]
+#[kani::unwind(4)]
 #[kani::stub(core::fmt::write, crate::verif_harness::stub_write)]
 fn c04_limit_token() {
     let mut p = Packet::new();
@@ -948,7 +948,7 @@ fn c04_len16() {
 //@ bounds=format: every registered content format (via try_from of a symbolic usize); pre-state: no Content-Format, or one earlier value set through the same setter (any registered format), or one raw value of 0..3 symbolic bytes
 //@ what=after set_content_format(f): get_content_format() = Some(f) and the raw option is exactly one value = shortest big-endian id, whatever was there before; get on raw bytes: named format iff the big-endian value (length <= 2) is a registered id
 #[kani::proof]
-#[kani::unwind(6)]
+#[kani::unwind(5)]
 #[kani::stub(core::fmt::write, crate::verif_harness::stub_write)]
 fn c19_content_format() {
     let mut p = Packet::new();
@@ -1015,7 +1015,7 @@ fn c19_content_format() {
 //@ bounds=one concrete option number (Size1), two u32 values (every pair) added through add_option_as, then a third (u16) through set_options_as
 //@ what=the typed setters store exactly the wrapper encodings, element by element and in order; the typed getters return the same numbers; set_options_as replaces
 #[kani::proof]
-#[kani::unwind(11)]
+#[kani::unwind(5)]
 #[kani::stub(core::fmt::write, crate::verif_harness::stub_write)]
 fn c06_typed_accessors() {
     let mut p = Packet::new();
